@@ -90,6 +90,22 @@ PROPS = {
         "bounds": {"quick": "4 record kinds x 3 acceptance paths (paid client put, unpaid update, replication) x {derived key, foreign key}; the foreign key is also held where the path requires a held record"},
         "outside": ["RecordStore::put (libp2p inbound path: unverified records are only forwarded as events)", "rmp decoding of adversarial bytes", "SHA-3 as the chunk name function (real code runs on concrete bytes)"],
     },
+    "C05": {
+        "parts": [
+            {"engine": "D", "crate": "d_kad", "harnesses": [
+                {"name": "c05_event_step", "covers": ["terminal", "still_pending", "value_returned", "split_returned", "mismatch_returned", "not_found_returned", "not_enough_returned", "timeout_returned", "same_peer_answers_twice"], "quick": {"max_paths": 200000, "timeout": 900}},
+                {"name": "c05_dedup", "covers": ["both_waiting", "second_caller_got_value"], "quick": {"max_paths": 10000, "timeout": 600}},
+            ]},
+        ],
+        "assumptions": [
+            "engine D on items of ant-networking: accumulate_get_record_found, handle_get_record_finished, handle_get_record_error, send_record_after_checking_target (event/kad.rs), the GetNetworkRecord arm (cmd.rs), GetRecordCfg + does_target_match (driver.rs), get_quorum_value, close_group_majority (lib.rs), in a model SwarmDriver with exactly the fields they touch",
+            "peer ids and record contents are symbolic 256-bit identities; the maps and sets of the transplanted items are association lists whose key equality asks the solver, so 'same peer twice', 'same content as another reply', 'equals the expected value' are partitions the solver decides; XorName::from_content is collision free (hash of a content = its identity)",
+            "one-step induction: the pending read is an arbitrary state with <=2 versions x <=2 distinct responders in which no version has reached the quorum; every reply / terminating event is applied to it; the invariant is re-checked on reads that stay pending",
+            "real tokio oneshot channels carry the outcomes; libp2p's query handle is a recorder; register/transaction payload decoding is replaced by typed shims (merge of transactions = set union)",
+        ],
+        "bounds": {"quick": "quorum in {One, N(2), Majority(3), All(5)}, 1..2 waiting callers, optional expected value, <=2 versions x <=2 responders, one event from {reply from a new/known peer or self with new/known content, finished, not found, quorum failed, timeout}; de-duplication: two callers with independent quorums/expected values, up to 5 replies"},
+        "outside": ["libp2p's own query progress semantics", "retries/backoff in get_record_from_network", "register merge in handle_split_record_error (client side)", "more than 2 versions / 2 responders per version in the pre-state"],
+    },
     "C06": {
         "parts": [
             {"engine": "D", "crate": "d_reg", "harnesses": [
